@@ -361,6 +361,10 @@ class BusCookieAuthenticator :
         hash_str = None
         shash = 1
         try:
+            if isinstance(response, str):
+                # stepAuth hands over the hex-decoded response as text
+                response = response.encode('ascii')
+
             client_challenge, hash_str = response.split()
 
             tohash = (
